@@ -80,10 +80,10 @@ Qed.
 
 (* whatever happens to a read — data, timeout, the future dropped, a transport error — the bytes sent by the broker
    and not yet consumed are the same sequence afterwards: nothing lost, nothing twice, nothing out of order *)
-Theorem fill_conserves_inbound : forall fuel dl w,
-  inbound_stream (fst (fill_packet_reader fuel dl w)) = inbound_stream w.
+Lemma fill_go_conserves_inbound : forall fuel y dl w,
+  inbound_stream (fst (fill_go fuel y dl w)) = inbound_stream w.
 Proof.
-  induction fuel as [|f IH]; intros dl w; cbn [fill_packet_reader]; [reflexivity|].
+  induction fuel as [|f IH]; intros y dl w; cbn [fill_go]; [reflexivity|].
   destruct (packet_available _); [reflexivity|].
   destruct (receive_buffer (s_reader (w_sess w))) as [r' ow] eqn:Er.
   pose proof (receive_buffer_data _ _ _ Er) as Hd.
@@ -92,6 +92,7 @@ Proof.
   assert (H0 : inbound_stream w0 = inbound_stream w).
   { unfold inbound_stream, w0. cbn [w_sess upd_sess set_reader s_reader w_inq]. now rewrite Hd. }
   destruct (N.eqb win 0); [exact H0|].
+  destruct (timer_fired y dl w0); [exact H0|].
   destruct (io_read win dl w0) as [w1 r] eqn:Ei.
   pose proof (io_read_bytes _ _ _ _ _ Ei) as Hb. pose proof (io_read_sess win dl w0) as [Hs _]. rewrite Ei in Hs. cbn [fst] in Hs.
   assert (Hk : inbound_stream w1 = inbound_stream w -> inq_bytes (w_inq w1) = inq_bytes (w_inq w0) -> True) by trivial.
@@ -104,6 +105,9 @@ Proof.
   - unfold inbound_stream. rewrite Hs, Hb. exact H0.
   - unfold inbound_stream. rewrite Hs, Hb. exact H0.
 Qed.
+Theorem fill_conserves_inbound : forall fuel dl w,
+  inbound_stream (fst (fill_packet_reader fuel dl w)) = inbound_stream w.
+Proof. intros. apply fill_go_conserves_inbound. Qed.
 
 (* ---------- outbound: a dropped engine step is all or nothing ---------- *)
 Theorem step_cancel_recorded : forall st now w w',
